@@ -199,6 +199,7 @@ def c05_rules():
         lambda prog, tier: vstattype.run(prog),
         lambda prog, tier: rowcopy.run(prog, shared_eff(prog)),
         lambda prog, tier: normlen.run(prog),
+        lambda prog, tier: inval.run_pricedim(prog, shared_eff(prog)),
         lambda prog, tier: vtypezero.run(prog),
         lambda prog, tier: escape.run_extcopy(prog),
     ]
@@ -543,7 +544,7 @@ PROPS = {
                   lambda prog, tier: argcap.run(prog, floor=40),
                   lambda prog, tier: staleptr.run(prog, shared_eff(prog)),
                   lambda prog, tier: condalloc.run(prog),
-                  lambda prog, tier: lpstate.run(prog), lambda prog, tier: lpstate.run_internal(prog), lambda prog, tier: lenm1.run(prog), lambda prog, tier: basisdim.run(prog), lambda prog, tier: normlen.run(prog),
+                  lambda prog, tier: lpstate.run(prog), lambda prog, tier: lpstate.run_internal(prog), lambda prog, tier: lenm1.run(prog), lambda prog, tier: basisdim.run(prog), lambda prog, tier: normlen.run(prog), lambda prog, tier: inval.run_pricedim(prog, shared_eff(prog)),
                   lambda prog, tier: neverset.run(prog),
                   lambda prog, tier: fmt.run(prog),
                   lambda prog, tier: floatidx.run(prog),
@@ -676,7 +677,8 @@ _ADD = {
                            "caller's status letter that does not fit the bounds, cannot enter the computation); (R-ROWCOPY) every library function that "
                            "stores into the arrays of the column matrix has tested-and-released the cached row copy rA on a dominating position "
                            "(mutators computed from effect summaries); (R-NORMLEN) every relative change of a basis record's row / structural count is "
-                           "accompanied on every path by code that deals with the corresponding norm array."},
+                           "accompanied on every path by code that deals with the corresponding norm array; (R-PRICEDIM) a public function that may change "
+                           "the row / column count resets factorok or releases the devex data of the pricing record on every success path."},
     "C07": {"technique": "; computed simplex-state fields of lpinfo + unguarded-read summaries + dominance of the API hand-over by the factorok test; "
                          "alphabet discovery + dominating-validator check for caller-supplied selector letters",
             "explanation": " (R-LPSTATE) the index-taking calls that work on the simplex data of the problem (tableau rows, pivot-in lists, basis "
